@@ -93,7 +93,7 @@ def filter_refs(node, keep):
 def normalize(sc):
     names = {n["name"] for n in sc["nodes"]}
     for n in sc["nodes"]:
-        if n["cls"] in ("ProbeSrc", "ProbeSrcNoOut"):
+        if n["cls"] in ("ProbeSrc", "ProbeSrcNoOut", "ProbeSrcNone"):
             n["args"] = {}
             n["plan"] = []
         else:
@@ -281,6 +281,13 @@ def _gen_nodes(rng, family, n):
         if rng.random() < 0.12:
             node["meta"] = {"DisplayName": "n %d" % i, "K": "v"}
         nodes.append(node)
+    if rng.random() < 0.12:
+        # side-effect-only plug-ins (result None): all references in such a program are untyped
+        for nd in nodes:
+            if nd["cls"] in ("ProbeSrc", "ProbeSrcNoOut"):
+                nd["cls"] = "ProbeSrcNone" if rng.random() < 0.5 else "ProbeSrcNoOut"
+            else:
+                nd["cls"] = "ProbeOpNone" if rng.random() < 0.5 else "ProbeOpU"
     return nodes
 
 
@@ -343,6 +350,7 @@ def generate(prop, rng, index, tier):
         "config": "faults" if index % 4 == 3 else "clean",
         "nodes": nodes, "src_count": src_count,
         "api_objects": rng.random() < 0.5,
+        "template_twice": rng.random() < 0.3,
         "layout": random_layout(rng, wild=rng.random() < 0.5),
         "ops": _gen_ops(rng, names, tier),
         "faults": [],
@@ -373,6 +381,25 @@ def _generate_cyclic_eems(rng, index, tier):
         model = modelgen.gen_model(rng, tier, ints=False, missing=False, ncmds=rng.randint(3, 7))
         cmds = model["cmds"]
         env = ref.run_model(model["table"], cmds)
+        if rng.random() < 0.3:
+            # a cycle that runs through PrintVars commands (their references are untyped)
+            k = rng.choice([1, 2, 3])
+            names = ["pv%d" % i for i in range(k)]
+            data = [c["name"] for c in cmds]
+            for i, nm in enumerate(names):
+                refs = [names[(i + 1) % k]] + ([rng.choice(data)] if rng.random() < 0.5 else [])
+                rng.shuffle(refs)
+                args = {"InFieldNames": refs}
+                if rng.random() < 0.5:
+                    args["OutFileName"] = "pv%d.txt" % i
+                cmds.append({"name": nm, "cmd": "PrintVars", "args": args})
+            if rng.random() < 0.4:
+                cmds.append({"name": "pvtail", "cmd": "PrintVars", "args": {"InFieldNames": [names[0]]}})
+            order = list(range(len(cmds)))
+            rng.shuffle(order)
+            return {"engine": ENGINE, "prop": "C14", "family": "cyclic-eems-printvars", "config": "cyclic-eems",
+                    "model": model, "order": order, "nodes": [], "ops": [["RUN"]], "faults": [],
+                    "back_edge": [names[0], "InFieldNames", names[-1]]}
         byname = {c["name"]: c for c in cmds}
         desc = {c["name"]: set() for c in cmds}          # descendants (consumers, transitively)
         for c in cmds:
@@ -665,6 +692,8 @@ class _Ctx(object):
         self.res = res
         self.plans = {n["name"]: n["plan"] for n in sc["nodes"]}
         self.exact = {n["name"] for n in sc["nodes"] if n.get("exact")}
+        self.none_result = {n["name"] for n in sc["nodes"] if n["cls"] in ("ProbeSrcNone", "ProbeOpNone")}
+        self.program = None
         self.expect_args = {n["name"]: n["args"] for n in sc["nodes"]}
         self.faults = [dict(f) for f in sc.get("faults", [])]
         self.serial = 0
@@ -714,9 +743,18 @@ class _Ctx(object):
         if not self.judge:
             return
         owner = getattr(tok, "owner", None)
-        if owner != dname:
+        if dname in self.none_result:
+            if tok is not None:
+                self.res.violate("C01.I2", "C01.I2 foreign-or-missing-result",
+                                 "%s pulled %s (a command whose result is None) and got %r" % (consumer.result_name, dname, tok))
+            self.res.probe("result None pulled (side-effect-only producer)")
+        elif owner != dname:
             self.res.violate("C01.I2", "C01.I2 foreign-or-missing-result",
                              "%s pulled %s and got %r" % (consumer.result_name, dname, tok))
+        if self.program is not None and self.program.commands.get(dname) is not dep:
+            self.res.violate("C01.I2", "C01.I2 command-of-another-program",
+                             "%s was handed a command object %s that is not the one of its own program"
+                             % (consumer.result_name, dname))
         if not after:
             self.res.violate("C01.I2", "C01.I2 unfinished-at-pull",
                              "%s pulled %s which is not finished at return" % (consumer.result_name, dname))
@@ -724,7 +762,7 @@ class _Ctx(object):
             self.res.violate("C01.I2", "C01.I2 no-exec-exit-before-pull",
                              "%s got a result of %s before its execute returned" % (consumer.result_name, dname))
         first = self.pulled_tokens.setdefault(dname, tid)
-        if first != tid:
+        if first != tid and dname not in self.none_result:
             self.res.violate("C01.I3", "C01.I3 result-identity",
                              "two reads of %s returned different objects" % dname)
 
@@ -752,6 +790,8 @@ def _build(sc, Program, probe):
     else:
         text = ""
         program = Program(libraries=LIBS)
+    template = sc.get("template_twice") and k == 0 and not sc.get("api_objects")
+    first = Program(libraries=LIBS) if template else None
     for n in nodes[k:]:
         args = {}
         for s in SLOTS:
@@ -759,8 +799,45 @@ def _build(sc, Program, probe):
                 args[s] = _api_value(n["args"][s], program, sc.get("api_objects"))
         if n.get("meta"):
             args["Metadata"] = dict(n["meta"])
+        if first is not None:
+            # API "template" use: the very same argument objects (lists of names) go into two programs
+            first.add_command(getattr(probe, n["cls"]), n["name"], args)
         program.add_command(getattr(probe, n["cls"]), n["name"], args)
+    if first is not None:
+        import mpsim_probe
+        saved = mpsim_probe.SIM
+        mpsim_probe.SIM = _Quiet(saved)
+        try:
+            first.run()
+        except Exception:  # noqa
+            pass
+        finally:
+            mpsim_probe.SIM = saved
     return program, text
+
+
+class _Quiet(object):
+    """Simulator side for the earlier (template) program: same pull plans, nothing judged or logged."""
+
+    def __init__(self, ctx):
+        self.ctx = ctx
+        self.serial = 100000
+
+    def next_serial(self):
+        self.serial += 1
+        return self.serial
+
+    def pull_plan(self, name, nrefs):
+        return self.ctx.pull_plan(name, nrefs)
+
+    def received(self, inst, shape):
+        pass
+
+    def fault_point(self, name, step):
+        pass
+
+    def pulled(self, consumer, dep, tok, before):
+        pass
 
 
 def _api_value(v, program, objects):
@@ -826,11 +903,14 @@ def execute(sc):
     ctx.monitor = mon
     probe.SIM = ctx
     program = None
+    if sc.get("template_twice"):
+        res.probe("the same argument objects were used for an earlier program (API template)")
     try:
         with Hygiene(recursion_limit=sc.get("knobs", {}).get("reclimit")):
             try:
                 log.emit("op-begin", op="BUILD")
                 program, text = _build(sc, Program, probe)
+                ctx.program = program
                 log.emit("op-end", op="BUILD", ok=True)
             except SimAbort:
                 raise
@@ -839,7 +919,8 @@ def execute(sc):
                 res.violate(sc["prop"] + ".build", "%s.build %s" % (sc["prop"], type(exc).__name__),
                             "building a valid program failed: %r" % (exc,))
                 return _finish(sc, res, mon, pos, gkey)
-            mon.install([getattr(probe, c) for c in ("ProbeSrc", "ProbeSrcNoOut", "ProbeOp", "ProbeOpU")])
+            mon.install([getattr(probe, c) for c in ("ProbeSrc", "ProbeSrcNoOut", "ProbeOp", "ProbeOpU", "ProbeSrcNone",
+                                                     "ProbeOpNone")])
             complete = False
             gets = {}
             for op in sc["ops"]:
@@ -855,10 +936,14 @@ def execute(sc):
                         tid = log.token(tok)
                         log.emit("get", cmd=op[1], tok=tid)
                         if not cyclic:
-                            if getattr(tok, "owner", None) != op[1]:
+                            if op[1] in ctx.none_result:
+                                if tok is not None:
+                                    res.violate("C01.I2", "C01.I2 client-read-wrong-result", "reading %s returned %r" % (op[1], tok))
+                            elif getattr(tok, "owner", None) != op[1]:
                                 res.violate("C01.I2", "C01.I2 client-read-wrong-result",
                                             "reading %s returned %r" % (op[1], tok))
-                            if gets.setdefault(op[1], tid) != tid or ctx.pulled_tokens.setdefault(op[1], tid) != tid:
+                            if op[1] not in ctx.none_result and (
+                                    gets.setdefault(op[1], tid) != tid or ctx.pulled_tokens.setdefault(op[1], tid) != tid):
                                 res.violate("C01.I3", "C01.I3 result-identity",
                                             "reading %s returned a different object than before" % op[1])
                     elif op[0] == "CRUN":
@@ -1103,6 +1188,10 @@ def shrink_candidates(sc):
     if sc.get("api_objects"):
         c = clone()
         c["api_objects"] = False
+        yield c
+    if sc.get("template_twice"):
+        c = clone()
+        c["template_twice"] = False
         yield c
     # topological textual order
     if not cyc:
